@@ -29,6 +29,17 @@ def modelledOverrides : List (String × String) :=
 /-- Every override found in the source on this run is modelled, and nothing else is. -/
 theorem overrides_all_modelled : Generated.MLOverrides.overrides = modelledOverrides := by decide
 
+/-- The classes known to define `propagate_values`: the base (`Node`: nothing), `StandardNode` (runs
+    the single node through the backend, never a node with subgraphs), `Constant` (its attribute),
+    `_Initializer` (its value), `_Inline` (the inlined model, not through control flow). A propagated
+    value enters reported shapes through ONNX's data propagation, so any other definition is a new way
+    for a reported type to depend on a value; the value-dependent oracle covers exactly these. -/
+def knownValueOverrides : List (String × String) :=
+  [("_inline", "_Inline"), ("_internal_op", "_Initializer"), ("_node", "Node"), ("_standard", "StandardNode"),
+   ("opset.ai.onnx.v17", "_Constant"), ("opset.ai.onnx.v19", "_Constant"), ("opset.ai.onnx.v21", "_Constant")]
+
+theorem value_overrides_all_known : Generated.MLOverrides.valueOverrides = knownValueOverrides := by decide
+
 /-! ## ai.onnx.ml operators -/
 
 theorem binarizer_sound (x : ITy) (v : RtVal) (outs : List ITy) (w : List RtVal)
